@@ -11,7 +11,8 @@ RULE = ("simulated networks of 4 and 7 real node instances, each shadowed by the
         "same start value, messages and timeouts; adversarial scheduler (deliver out of order / drop / replay / "
         "timeout / compact at arbitrary points) and forged or field-mutated messages (type, height, round, root, "
         "signers, signature, justifications, full data, identifier, data round), re-signed with real operator keys "
-        "in 3 of 4 cases; one case = the complete input history of one instance. Non-trivial = the history reaches "
+        "in 3 of 4 cases; plus EVERY history of length <= 2 (quick) / <= 3 (thorough) over a fixed 40-symbol alphabet of "
+        "pre-signed messages, timeout and compaction fed to operator 4; one case = the complete input history of one instance. Non-trivial = the history reaches "
         "round >= 2 or contains a forged/mutated message that the instance accepts (msg ok after a byz/mutation "
         "injection is not separable per message, so: >= 1 accepted message and >= 1 error), distinct by op lines")
 TRUSTED_BASE = [
@@ -45,9 +46,11 @@ def runs(tier, seed):
             r.append(("net4-%d" % i, ["net", "-seed", str(seed * 100 + i), "-n", "150", "-size", "4", "-mut"]))
         for i in range(6):
             r.append(("net7-%d" % i, ["net", "-seed", str(seed * 100 + 50 + i), "-n", "40", "-size", "7", "-mut"]))
+        r += [("exh3-%d" % i, ["exh", "-len", "3", "-shard", str(i), "-of", "16"]) for i in range(16)]
         return r
     r = [("net4-%d" % i, ["net", "-seed", str(seed * 100 + i), "-n", "25", "-size", "4", "-mut"]) for i in range(10)]
     r += [("net7-%d" % i, ["net", "-seed", str(seed * 100 + 50 + i), "-n", "6", "-size", "7", "-mut"]) for i in range(6)]
+    r += [("exh2-%d" % i, ["exh", "-len", "2", "-shard", str(i), "-of", "4"]) for i in range(4)]
     return r
 
 
